@@ -26,7 +26,7 @@ func genC16(t *rapid.T, thorough bool) C16Case {
 	if thorough {
 		maxN = 120
 	}
-	n := rapid.OneOf(rapid.IntRange(0, 4), rapid.IntRange(0, 12), rapid.IntRange(0, maxN)).Draw(t, "n")
+	n := rapid.OneOf(rapid.IntRange(0, 4), rapid.IntRange(0, 12), rapid.IntRange(0, maxN), rapid.IntRange(33, 64)).Draw(t, "n")
 	coord := rapid.SampledFrom([]*rapid.Generator[int]{
 		rapid.IntRange(0, 6),
 		rapid.IntRange(-5, 5),
